@@ -66,6 +66,20 @@ def comparators(P, R, rule='C19.ARITH.1'):
                             bad.append(sx(x))
             R.ob(rule, not bad, s, 'comparator %s returns %s' % (f.name, 'a three-way result that cannot overflow' if not bad else 'the difference %s, which has the wrong sign on overflow' % bad[0]),
                  key='return:%s' % ('sub' if bad else 'ok'))
+    # pointer keys are ordered as addresses: an ordering comparison of pointer-valued operands is not made through a
+    # conversion to a signed integer type (which puts the upper half of the address space first)
+    from .. import numeric as _num
+    for f in fns.values():
+        for s in f.sites():
+            for ex in rules.event_exprs(s.ev):
+                for x in walk(ex):
+                    if x.get('k') == 'bin' and x.get('op') in ('<', '>', '<=', '>='):
+                        for side in (x.get('l'), x.get('r')):
+                            ct = (side or {}).get('castto')
+                            inner_ptr = isinstance(side, dict) and any(isinstance(y, dict) and y.get('k') == 'var' and y.get('t', '').count('*') >= 1 for y in walk(side))
+                            if ct and inner_ptr:
+                                tr = _num.type_range(ct) or _num.type_range({'intptr_t': 'long', 'ssize_t': 'long', 'ptrdiff_t': 'long', 'uintptr_t': 'unsigned long', 'size_t': 'unsigned long'}.get(ct, ct))
+                                R.ob(rule, bool(tr) and tr[0] >= 0, s, 'comparator %s orders pointer keys as addresses (operand converted to %s)' % (f.name, ct), key='pointer-order:%s' % f.name)
     # sibling agreement: every comparator that orders names orders them with the same library comparison (the same
     # names - configuration keys, log facilities, modules - are looked up in several containers; one container folding
     # case and another not makes the same name two elements here and one there)
@@ -228,6 +242,19 @@ def count_paths(P, R, rule='C19.MPT.1', disp=None):
         return st
     _, cx, _, _ = clr.forward((False, False), clr_event, None)
     R.ob(rule, bool(cx) and all(zz for rn, zz in cx if rn), z[0] if z else clr, 'whenever clear has emptied the tree (root = NULL) it has zeroed the count before it returns, with or without disposal', key='clear:count-all-paths')
+    # the count can count: the field is as wide as what set_size() hands out (a narrower field wraps while the tree grows)
+    from .. import numeric
+    ft = (P.record_field('set', 'count') or {}).get('t')
+    a = numeric.type_range(ft or '')
+    for f in P.unit_fns(UNIT):
+        for b in f.blocks:
+            c = f.term_cond(b)
+            for x in walk(c) if c is not None else ():
+                if x.get('k') == 'bin' and x.get('op') in ('==', '!=', '<', '<=', '>', '>='):
+                    for l, r in ((x.get('l'), x.get('r')), (x.get('r'), x.get('l'))):
+                        if is_field(l, 'count', 'set') and is_var(r) and numeric.type_range(r.get('t', '')):
+                            bt = numeric.type_range(r['t'])
+                            R.ob(rule, bool(a) and a[0] <= bt[0] and a[1] >= bt[1], f, 'the element count is kept in a type (%s) as wide as the counter it is compared with in %s (%s %s)' % (ft, f.name, r['t'], r['name']), key='count-width')
     R.floor(rule, 5)
 
 
